@@ -16,6 +16,9 @@
 //   I <arch> <enc> <off8> <ret>                  return value of the initialisation (alignment of start_offset)
 //   D <dist> <enc> <data> <expect>               delta through the lone coder under many slicings; public chain
 //   J <type> <dist> <ret>                        delta option validation
+//   R <arch|delta> <enc> <k> {<off8> <dist> <data> <feed> <expect>}*k   k jobs back to back on ONE coder object that is
+//                                                 initialised again before each job (internal coder, public raw coder on one
+//                                                 lzma_stream, Blocks of one .xz Stream, concatenated Streams)
 //   F <path>                                     .xz test file: prints FILE .. e=<first filter still applied> p=<content>
 // stdout: MISMATCH line=<n> what=<..> detail..., finally DONE lines=<n> runs=<m> calls=<c> mismatches=<k>
 #include "common.h"
@@ -213,6 +216,172 @@ static void oneshot(const char *arch, int enc, uint32_t off, const uint8_t *data
 	free(buf);
 }
 
+
+// ---------------------------------------------------------------- coder reuse (R lines)
+struct sub { uint32_t off, dist; uint8_t *data, *expect; size_t n, feed, nexp; };
+
+static void *sub_options(const struct arch *a, const struct sub *sb, lzma_options_bcj *bo, lzma_options_delta *dopt)
+{
+	if (a->id == LZMA_FILTER_DELTA) {
+		memset(dopt, 0, sizeof(*dopt));
+		dopt->type = LZMA_DELTA_TYPE_BYTE; dopt->dist = sb->dist;
+		return dopt;
+	}
+	bo->start_offset = sb->off;
+	return bo;
+}
+
+// runs lzma_code() on an initialised stream until everything is consumed/produced; returns output size or -1
+static long code_all(lzma_stream *strm, const uint8_t *in, size_t n, uint8_t *out, size_t cap, lzma_action last)
+{
+	strm->next_in = in; strm->avail_in = n; strm->next_out = out; strm->avail_out = cap;
+	for (int i = 0; i < 1000; ++i) {
+		const lzma_ret r = lzma_code(strm, last);
+		++calls;
+		if (r == LZMA_STREAM_END) return (long)(cap - strm->avail_out);
+		if (r != LZMA_OK) return -1000 - (long)r;
+		if (last != LZMA_FINISH && strm->avail_in == 0) return (long)(cap - strm->avail_out);
+	}
+	return -3;
+}
+
+static void reuse_session(const struct arch *a, int enc, struct sub *subs, int k)
+{
+	lzma_options_bcj bo; lzma_options_delta dopt;
+	lzma_options_lzma lz;
+	lzma_lzma_preset(&lz, 0);
+	const size_t cap = 1 << 16;
+	uint8_t *out = malloc(cap), *comp = malloc(cap), *back = malloc(cap);
+	char label[48];
+
+	// (1) the lone coder through the internal interface: the SAME lzma_next_coder is initialised again per job
+	lzma_next_coder next = LZMA_NEXT_CODER_INIT;
+	for (int j = 0; j < k; ++j) {
+		struct sub *sb = &subs[j];
+		lzma_ret r = lone_init(&next, a, enc, sub_options(a, sb, &bo, &dopt), 1);
+		snprintf(label, sizeof(label), "internal_job%d", j + 1);
+		if (r != LZMA_OK) { mismatch_num("reuse_init_ret", label, r, LZMA_OK); break; }
+		if (sb->feed < sb->n) {          // abandoned in the middle: one RUN call, then the coder is re-initialised
+			size_t ip = 0, op = 0;
+			uint8_t *in = dup_exact(sb->data, sb->feed);
+			r = next.code(next.coder, NULL, in, &ip, sb->feed, out, &op, cap, LZMA_RUN);
+			++calls; free(in);
+			if (r != LZMA_OK || op != sb->nexp || memcmp(out, sb->expect, op) != 0)
+				mismatch(enc ? "reuse_encode" : "reuse_decode", label, out, op, sb->expect, sb->nexp);
+		} else {
+			const long got = stream(&next, sb->data, sb->n, out, (j + (int)lineno) % 4, 0);
+			++runs;
+			if (got < 0 || (size_t)got != sb->n) mismatch_num(enc ? "reuse_encode" : "reuse_decode", label, got, (long)sb->n);
+			else if (memcmp(out, sb->expect, sb->n) != 0) mismatch(enc ? "reuse_encode" : "reuse_decode", label, out, sb->n, sb->expect, sb->n);
+		}
+	}
+	lzma_next_end(&next, NULL);
+
+	// (2) public raw coder: the SAME lzma_stream gets lzma_raw_encoder()/lzma_raw_decoder() again per job
+	lzma_stream strm = LZMA_STREAM_INIT;
+	for (int j = 0; j < k; ++j) {
+		struct sub *sb = &subs[j];
+		lzma_filter with[3] = { { a->id, sub_options(a, sb, &bo, &dopt) }, { LZMA_FILTER_LZMA2, &lz }, { LZMA_VLI_UNKNOWN, NULL } };
+		lzma_filter plain[2] = { { LZMA_FILTER_LZMA2, &lz }, { LZMA_VLI_UNKNOWN, NULL } };
+		snprintf(label, sizeof(label), "public_raw_job%d", j + 1);
+		const uint8_t *src = sb->data; size_t nsrc = sb->n;
+		size_t cpos = 0;
+		if (!enc) {
+			if (lzma_raw_buffer_encode(plain, NULL, sb->data, sb->n, comp, &cpos, cap) != LZMA_OK) { mismatch_num("reuse_setup", label, 0, 0); break; }
+			src = comp; nsrc = cpos;
+		}
+		lzma_ret r = enc ? lzma_raw_encoder(&strm, with) : lzma_raw_decoder(&strm, with);
+		if (r != LZMA_OK) { mismatch_num("reuse_init_ret", label, r, LZMA_OK); break; }
+		if (sb->feed < sb->n) {          // abandon: give half of the input with LZMA_RUN, then re-initialise
+			(void)code_all(&strm, src, nsrc / 2, out, cap, LZMA_RUN);
+			continue;
+		}
+		const long got = code_all(&strm, src, nsrc, out, cap, LZMA_FINISH);
+		++runs;
+		if (got < 0) { mismatch_num(enc ? "reuse_encode" : "reuse_decode", label, got, (long)sb->n); continue; }
+		if (enc) {
+			size_t ip = 0, op = 0;
+			r = lzma_raw_buffer_decode(plain, NULL, out, &ip, (size_t)got, back, &op, cap);
+			if (r != LZMA_OK || op != sb->n || memcmp(back, sb->expect, sb->n) != 0) mismatch("reuse_encode", label, back, op, sb->expect, sb->n);
+		} else if ((size_t)got != sb->n || memcmp(out, sb->expect, sb->n) != 0) mismatch("reuse_decode", label, out, (size_t)got, sb->expect, sb->n);
+	}
+	lzma_end(&strm);
+
+	if (!enc) goto done;
+	// (3) one .xz Stream with one Block per job (LZMA_FULL_FLUSH, lzma_filters_update between Blocks): the payload
+	//     of every Block with only LZMA2 undone must be the job's filtered bytes; the Stream must decode back
+	{
+		lzma_stream es = LZMA_STREAM_INIT;
+		size_t total = 0, nblocks = 0, fpos = 0;
+		uint8_t *file = malloc(cap);
+		for (int j = 0; j < k; ++j) {
+			struct sub *sb = &subs[j];
+			if (sb->feed < sb->n || sb->n == 0) continue;
+			lzma_filter with[3] = { { a->id, sub_options(a, sb, &bo, &dopt) }, { LZMA_FILTER_LZMA2, &lz }, { LZMA_VLI_UNKNOWN, NULL } };
+			lzma_ret r = nblocks == 0 ? lzma_stream_encoder(&es, with, LZMA_CHECK_CRC32) : lzma_filters_update(&es, with);
+			if (r != LZMA_OK) { mismatch_num("reuse_init_ret", "stream_encoder", r, LZMA_OK); break; }
+			const long got = code_all(&es, sb->data, sb->n, file + fpos, cap - fpos, LZMA_FULL_FLUSH);
+			if (got < 0) { mismatch_num("reuse_encode", "stream_encoder_flush", got, 0); break; }
+			fpos += (size_t)got; ++nblocks;
+			memcpy(back + total, sb->data, sb->n); total += sb->n;
+		}
+		if (nblocks > 0) {
+			const long got = code_all(&es, NULL, 0, file + fpos, cap - fpos, LZMA_FINISH);
+			if (got < 0) mismatch_num("reuse_encode", "stream_encoder_finish", got, 0);
+			else {
+				fpos += (size_t)got;
+				size_t pos = 12;           // Stream Header
+				for (int j = 0; j < k; ++j) {
+					struct sub *sb = &subs[j];
+					if (sb->feed < sb->n || sb->n == 0) continue;
+					snprintf(label, sizeof(label), "xz_block_job%d", j + 1);
+					lzma_block blk; lzma_filter df[LZMA_FILTERS_MAX + 1];
+					memset(&blk, 0, sizeof(blk));
+					blk.version = 1; blk.check = LZMA_CHECK_CRC32; blk.filters = df;
+					blk.header_size = lzma_block_header_size_decode(file[pos]);
+					if (lzma_block_header_decode(&blk, NULL, file + pos) != LZMA_OK) { mismatch_num("reuse_encode", label, -1, 0); break; }
+					size_t ip = pos + blk.header_size, op = 0;
+					const size_t start = ip;
+					lzma_ret r = lzma_raw_buffer_decode(df + 1, NULL, file, &ip, fpos, out, &op, cap);
+					++runs;
+					if (r != LZMA_OK || op != sb->n || memcmp(out, sb->expect, sb->n) != 0) mismatch("reuse_encode", label, out, op, sb->expect, sb->n);
+					for (size_t i = 0; df[i].id != LZMA_VLI_UNKNOWN && i < LZMA_FILTERS_MAX; ++i) free(df[i].options);
+					if (r != LZMA_OK) break;
+					const size_t comp_size = ip - start;
+					pos = ip + ((4 - ((blk.header_size + comp_size) & 3)) & 3) + 4;     // Block Padding + CRC32
+				}
+				uint64_t memlimit = UINT64_MAX; size_t ip = 0, op = 0;
+				lzma_ret r = lzma_stream_buffer_decode(&memlimit, 0, NULL, file, &ip, fpos, out, &op, cap);
+				++runs;
+				if (r != LZMA_OK || op != total || memcmp(out, back, total) != 0) mismatch("reuse_decode", "xz_multiblock_roundtrip", out, op, back, total);
+			}
+		}
+		lzma_end(&es);
+		free(file);
+	}
+	// (4) concatenated .xz Streams (each written by a fresh one-shot encoder) through ONE decoder with LZMA_CONCATENATED
+	{
+		uint8_t *file = malloc(cap);
+		size_t fpos = 0, total = 0;
+		for (int j = 0; j < k; ++j) {
+			struct sub *sb = &subs[j];
+			if (sb->feed < sb->n) continue;
+			lzma_filter with[3] = { { a->id, sub_options(a, sb, &bo, &dopt) }, { LZMA_FILTER_LZMA2, &lz }, { LZMA_VLI_UNKNOWN, NULL } };
+			if (lzma_stream_buffer_encode(with, LZMA_CHECK_CRC64, NULL, sb->data, sb->n, file, &fpos, cap) != LZMA_OK) { mismatch_num("reuse_setup", "stream_buffer_encode", 0, 0); break; }
+			memcpy(back + total, sb->data, sb->n); total += sb->n;
+		}
+		lzma_stream ds = LZMA_STREAM_INIT;
+		lzma_ret r = lzma_stream_decoder(&ds, UINT64_MAX, LZMA_CONCATENATED);
+		const long got = r == LZMA_OK ? code_all(&ds, file, fpos, out, cap, LZMA_FINISH) : -1;
+		++runs;
+		if (got < 0 || (size_t)got != total || memcmp(out, back, total) != 0) mismatch("reuse_decode", "xz_concatenated_streams", out, got < 0 ? 0 : (size_t)got, back, total);
+		lzma_end(&ds);
+		free(file);
+	}
+done:
+	free(out); free(comp); free(back);
+}
+
 int main(void)
 {
 	static char line[1 << 20];
@@ -299,6 +468,20 @@ int main(void)
 			else if (produced != n || consumed != n) mismatch_num("size_changed", "plan", (long)produced, (long)n);
 			else if (drift < 0 && (nwhole != n || memcmp(obuf, expect, n) != 0)) mismatch(what, "plan", obuf, produced, expect, nwhole);
 			else if (drift >= 0) printf("DRIFT line=%lu call=%d\n", lineno, drift);
+		} else if (kind[0] == 'R') {
+			const struct arch *a = find_arch(TOK());
+			const int enc = atoi(TOK());
+			const int k = atoi(TOK());
+			struct sub subs[8];
+			for (int j = 0; j < k && j < 8; ++j) {
+				subs[j].off = (uint32_t)strtoul(TOK(), NULL, 16);
+				subs[j].dist = (uint32_t)atoi(TOK());
+				subs[j].n = unhex(TOK(), data); subs[j].data = dup_exact(data, subs[j].n);
+				subs[j].feed = strtoul(TOK(), NULL, 10);
+				subs[j].nexp = unhex(TOK(), expect); subs[j].expect = dup_exact(expect, subs[j].nexp);
+			}
+			reuse_session(a, enc, subs, k);
+			for (int j = 0; j < k && j < 8; ++j) { free(subs[j].data); free(subs[j].expect); }
 		} else if (kind[0] == 'I') {
 			const struct arch *a = find_arch(TOK());
 			const int enc = atoi(TOK());
